@@ -148,10 +148,17 @@ func vt_C04_polygon_sign_more() {
 	vfPolySign(k, grid, vfCase("cell", grid*grid))
 }
 
-func vc_C04_polygon_dist() { // quick: the unit square, 12 seeded cells of the 36
+func vc_C04_polygon_dist() { // quick: the unit square, 12 seeded cells of the 32 that do not contain the polygon
 	grid := 6
 	c := vfCase("sample", 12)
-	vfPolyDist(1, grid, (c*3+vfSeed()%3)%(grid*grid))
+	// the four central cells (the polygon itself: hundreds of paths each) belong to the thorough tier
+	var outer []int
+	for k := 0; k < grid*grid; k++ {
+		if k != 14 && k != 15 && k != 20 && k != 21 {
+			outer = append(outer, k)
+		}
+	}
+	vfPolyDist(1, grid, outer[(c*3+vfSeed()%3)%len(outer)])
 }
 
 // thorough: two polygons (triangle, unit square), every cell (the L shape and beyond take hours in fork mode)
